@@ -133,7 +133,29 @@ def consumers_see_every_position(eng):
     return out
 
 
+def descriptors_keep_no_state(eng):
+    """C20: a descriptor object (Namespace, staticproperty, ...) lives in a CLASS dictionary, i.e. it is shared by every thread of the
+    process; whatever its __get__ stores on itself is process-wide state that another thread can replace between two statements.
+    No __get__ of the package assigns an attribute of the descriptor."""
+    out = []
+    for key, fi in sorted(eng.repo.funcs.items()):
+        if not key.endswith('.__get__') or not isinstance(fi.node, ast.FunctionDef) or not fi.node.args.args:
+            continue
+        me = fi.node.args.args[0].arg
+        bad = []
+        for n in ast.walk(fi.node):
+            tgts = n.targets if isinstance(n, ast.Assign) else [n.target] if isinstance(n, (ast.AugAssign, ast.AnnAssign)) else []
+            for t in tgts:
+                if isinstance(t, ast.Attribute) and isinstance(t.value, ast.Name) and t.value.id == me:
+                    bad.append((n.lineno, t.attr))
+        out.append((f'C20.descriptor-access-stores-nothing-on-the-shared-descriptor@{key.split("::")[1]}', not bad,
+                    f'{key} assigns {bad} on the descriptor object (shared by all threads through the class)' if bad else 'no assignment to the descriptor'))
+    return out
+
+
 def register(R):
+    R.tasks.append(Structural('structural:C20-descriptors-keep-no-state', ('C20',), descriptors_keep_no_state,
+                              note='__get__ methods of the package do not write attributes of the (class-level, hence shared) descriptor object'))
     R.tasks.append(Structural('structural:C11-shared-nodes-count-at-every-position', ('C10', 'C11', 'C14'), consumers_see_every_position,
                               note='call sites of named_children / nodes_with_paths / nodes / nodes_paths outside the helpers: none asks to skip shared nodes'))
     R.tasks.append(Structural('structural:C11-identity-memo-keys', ('C10', 'C11'), c11_memo_keys_keep_their_node_alive,
